@@ -330,6 +330,9 @@ def instrument(m, ev):
             with np.errstate(all="ignore"):
                 sens = np.abs(num / gap) * (np.spacing(abs(lv)) + np.spacing(np.abs(d))) / np.abs(gap)
             sens = float(np.nansum(sens[np.asarray(num) > 0])) if (np.asarray(num) > 0).any() else 0.0
+            npos = np.asarray(num)[np.asarray(num) > 0]
+            if (npos.size and npos.min() < 1e-290) or ((np.asarray(num) > 0) & (d <= 0)).any():
+                sens = float("inf")   # responsibilities underflowed to denormals / a pole at 0: nothing to solve for
             ev["cond"][ev.get("node")] = sens if math.isfinite(sens) else float("inf")
         except Exception:
             ev["cond"][ev.get("node")] = float("inf")
